@@ -19,7 +19,7 @@ EXPLANATION = (
     "environment together, consults the environment before generating, and resolves every syntax-quoted symbol except the "
     "enumerated exemptions; resolve_alias qualifies every unqualified non-special symbol."
 )
-DECIDES = "destructuring templates (key agreement, documented accessors), gensym environment scoping, resolution of syntax-quoted symbols"
+DECIDES = "destructuring templates (key agreement, documented accessors), gensym environment scoping, resolution of syntax-quoted symbols, every sub-pattern expanded once in place, names bound in source order in fn and loop, collection kinds rebuilt by syntax-quote at every size"
 DECLINED = "every pattern x every value; macroexpansion equivalence (runtime values)"
 TRUSTED = ["nth / nthnext / get semantics of basilisp.core"]
 ASSUMPTIONS = []
